@@ -665,3 +665,29 @@ func AttrValueTruncationDocs() []GenDoc {
 	}
 	return out
 }
+
+// TinyNonASCIIDocs: pages of a few hundred bytes — they fit in the very first
+// read of any consumer — whose text is not ASCII: UTF-8 (accented, CJK, with
+// BOM), legacy encodings with and without a declaration, UTF-16.
+func TinyNonASCIIDocs() []GenDoc {
+	texts := []string{
+		"Příliš žluťoučký kůň úpěl ďábelské ódy — naïve café, Zürich, straße.",
+		"文章内容：这是一个很短的页面，只有几句话。下一页在这里。",
+		"한국어 기사 내용입니다. 다음 페이지로 이동하십시오.",
+		"Ελληνικά και русский текст — короткая страница.",
+	}
+	var out []GenDoc
+	for i, t := range texts {
+		page := fmt.Sprintf(`<html><head><title>tiny %d — é</title></head><body><h1>tiny é %d</h1><p>%s</p><p>%s <a href="/tiny/%d">next »</a></p></body></html>`, i, i, t, t, i+2)
+		out = append(out, GenDoc{Bytes: []byte(page), URL: fmt.Sprintf("http://example.com/tiny/%d", i+1), Origin: fmt.Sprintf("tiny-nonascii:%d", i), Features: []string{"tiny-nonascii"}, UTF8: true})
+		withMeta := strings.Replace(page, "<head>", `<head><meta charset="utf-8">`, 1)
+		out = append(out, GenDoc{Bytes: []byte(withMeta), URL: fmt.Sprintf("http://example.com/tiny/%d", i+1), Origin: fmt.Sprintf("tiny-nonascii:%d:meta", i), Features: []string{"tiny-nonascii"}, UTF8: true})
+		out = append(out, GenDoc{Bytes: append([]byte{0xef, 0xbb, 0xbf}, page...), URL: fmt.Sprintf("http://example.com/tiny/%d", i+1), Origin: fmt.Sprintf("tiny-nonascii:%d:bom", i), Features: []string{"tiny-nonascii"}, UTF8: true})
+	}
+	for i, kind := range []string{"win1252", "latin2", "utf16le", "koi8r"} {
+		src := texts[[]int{0, 0, 1, 3}[i]]
+		page := fmt.Sprintf(`<html><head><title>tiny legacy %d</title></head><body><h1>legacy %d</h1><p>%s</p><p>%s</p></body></html>`, i, i, src, src)
+		out = append(out, GenDoc{Bytes: Reencode([]byte(page), kind, kind == "utf16le"), URL: "http://example.com/tiny/legacy", Origin: "tiny-nonascii:legacy:" + kind, Features: []string{"tiny-nonascii"}})
+	}
+	return out
+}
